@@ -4,10 +4,11 @@ worktree /tmp/seedtest via VERIF_REPO, and records the outcome in seeded/<id>/me
 seeded/MATRIX.md.   usage: tools/seedmatrix.py [seed-id ...]"""
 import json, os, re, subprocess, sys
 V = os.path.dirname(os.path.dirname(os.path.abspath(__file__)))
-W = "/tmp/seedtest"
+W = os.environ.get("SEEDW", "/tmp/seedtest")
 # besides its own property, a seed is run against these neighbours
-ALSO = {"C01": ["C02", "C07", "C08"], "C02": ["C01", "C08", "C09"], "C09": ["C02"], "C07": ["C08"], "C08": ["C07", "C02"],
-        "C13": ["C12"], "C12": ["C13"], "C03": ["C06"], "C06": ["C03"], "C16": ["C15"], "C15": ["C16"]}
+ALSO = {"C01": ["C02", "C07", "C08"], "C02": ["C01", "C08", "C09"], "C09": ["C02", "C17", "C18"], "C07": ["C08"], "C08": ["C07", "C02"],
+        "C13": ["C12"], "C12": ["C13"], "C03": ["C19"], "C06": ["C02"], "C16": ["C15"], "C15": ["C16"], "C11": ["C18"], "C18": ["C11"],
+        "C17": ["C09"], "C19": ["C03"], "C04": ["C05"], "C05": ["C04"]}
 
 
 def sh(cmd, **kw):
@@ -46,10 +47,17 @@ def main():
         json.dump(m, open(mp, "w"), indent=1)
         rows.append((sd, res))
         print(sd, res, flush=True)
+    write_matrix()
+
+
+def write_matrix():
+    """seeded/MATRIX.md from the detected_by entries of every stored seed"""
+    allseeds = sorted(d for d in os.listdir(os.path.join(V, "seeded")) if os.path.isdir(os.path.join(V, "seeded", d)))
     with open(os.path.join(V, "seeded", "MATRIX.md"), "w") as f:
         f.write("| seeded change | what it breaks | outcome per check |\n|---|---|---|\n")
-        for sd, res in rows:
+        for sd in allseeds:
             m = json.load(open(os.path.join(V, "seeded", sd, "meta.json")))
+            res = m.get("detected_by", {})
             f.write("| %s | %s | %s |\n" % (sd, (m.get("title") or m.get("what_it_breaks", ""))[:160].replace("|", "/"),
                                            "; ".join("%s: %s" % kv for kv in res.items())))
 
